@@ -834,6 +834,9 @@ def execute(case: Dict[str, Any]) -> Dict[str, Any]:
             import shutil as _sh
 
             _sh.rmtree(C.SCRATCH_ROOT / "e2run" / f"{int(case.get('seed') or 0):016x}", ignore_errors=True)
+    if case.get("ignore_history"):
+        for v in violations:
+            v["props"] = ["C20", "C05"]  # whether an opt-out is honoured depends on history
     if case.get("trees"):
         for v in violations:
             v["props"] = ["C18", "C05"]  # import normalisation against another on-disk layout, through history
@@ -1083,6 +1086,41 @@ def generate_blocks(rng: random.Random, index: int, of: int) -> Dict[str, Any]:
     return {"engine": "e2", "knobs": rng.choice(["default", "unbounded"]), "ops": ops}
 
 
+_DIRECT_BACKEND_RULES = (
+    "fixes.move_before_loop", "fixes.fix_duplicate_imports", "fixes.missing_context_manager", "fixes.swap_if_else",
+    "fixes.early_continue", "fixes.sort_imports", "fixes.remove_duplicate_functions", "abstractions.overused_constant",
+    "abstractions.simplify_if_control_flow", "abstractions.create_abstractions",
+)
+
+
+def generate_ignore_history(rng: random.Random, profile: Dict[str, Any]) -> Dict[str, Any]:
+    """Opt-out comments through history: texts without any opt-out comment are
+    formatted, and in between rules of the direct editing back-end (which consult
+    the ignore test on their own, outside the scheduler) run on texts with an
+    ignore comment.  Whether the comment is honoured must not depend on what the
+    process looked at just before."""
+    from . import rules as R
+
+    corp = gen.corpus()
+    names = list(R.harvest())
+    direct = [n for n in _DIRECT_BACKEND_RULES if n in names]
+    pool = [(e, gen.origin_rule(e, names)) for e in corp]
+    pool = [(e, r) for e, r in pool if r in direct]
+    ops: List[Dict[str, Any]] = []
+    for _ in range(rng.randint(3, 6)):
+        plain = rng.choice(corp)["source"]
+        if "pyrefact" in plain:
+            continue
+        ops.append({"op": "FMT", "x": plain})
+        e, r = rng.choice(pool)
+        xi = gen.with_ignore(rng, e["source"])
+        op: Dict[str, Any] = {"op": "RULE", "rule": r, "x": xi}
+        ops.append(op)
+        if rng.random() < 0.4:
+            ops.append({"op": "FMT", "x": xi})
+    return {"engine": "e2", "knobs": "default", "ops": ops, "keep_going": False, "ignore_history": True}
+
+
 def generate_disk(rng: random.Random, profile: Dict[str, Any]) -> Dict[str, Any]:
     """History with calls that change the disk: clients of a private project tree
     are formatted, a module they import from is formatted *in place* by
@@ -1225,6 +1263,8 @@ def run_seed(seed: int, **profile) -> Dict[str, Any]:
         case = generate_chains(rng, profile)
     elif profile.get("blocks"):
         case = generate_blocks(rng, profile["index"], profile["of"])
+    elif profile.get("ignore_history"):
+        case = generate_ignore_history(rng, profile)
     elif profile.get("disk"):
         case = generate_disk(rng, profile)
     elif profile.get("trees"):
